@@ -47,6 +47,55 @@ fn connect(sh: &Sh, timeout_ms: u64, max_queued: Option<usize>) -> Connection {
     panic!("connection build did not complete");
 }
 
+/// Build a *bus* connection over the scripted socket; the fake bus answers the SASL lines and Hello.
+fn connect_bus(sh: &Sh, peer: &mut Peer) -> Connection {
+    let b = zbus::connection::Builder::socket(split(sh)).internal_executor(false);
+    let mut fut = Box::pin(b.build());
+    let mut hs_off = 0usize; // bytes of handshake text consumed
+    let mut begun = false;
+    for _ in 0..10000 {
+        if let Poll::Ready(r) = poll_once(fut.as_mut()) {
+            return r.expect("bus connection build");
+        }
+        // answer handshake lines
+        loop {
+            let line = {
+                let s = sh.lock().unwrap();
+                if begun {
+                    break;
+                }
+                let rest = &s.written[hs_off..];
+                match rest.windows(2).position(|w| w == b"\r\n") {
+                    Some(p) => rest[..p + 2].to_vec(),
+                    None => break,
+                }
+            };
+            hs_off += line.len();
+            let text = String::from_utf8_lossy(&line).trim_start_matches('\0').trim().to_string();
+            if text.starts_with("AUTH") {
+                release(sh, b"OK 0123456789abcdef0123456789abcdef\r\n".to_vec(), vec![]);
+            } else if text.starts_with("NEGOTIATE_UNIX_FD") {
+                release(sh, b"AGREE_UNIX_FD\r\n".to_vec(), vec![]);
+            } else if text.starts_with("BEGIN") {
+                begun = true;
+                peer.parsed = hs_off;
+            }
+        }
+        if begun {
+            for i in peer.pump() {
+                let m = peer.seen[i].msg.clone();
+                if m.header().member().map(|x| x.as_str() == "Hello").unwrap_or(false) {
+                    let s = peer.serial();
+                    let r = zbus::message::Message::method_return(&m.header()).unwrap().serial(s)
+                        .sender("org.freedesktop.DBus").unwrap().build(&":1.99").unwrap();
+                    release(sh, msg_bytes(&r), vec![]);
+                }
+            }
+        }
+    }
+    panic!("bus connection build did not complete");
+}
+
 /// Credits: a consumer takes one item per credit; `u64::MAX` = unlimited.
 #[derive(Default)]
 struct Gate {
@@ -98,6 +147,43 @@ fn err_kind(e: &zbus::Error) -> (&'static str, u32, i64) {
 }
 
 type Slots = Rc<RefCell<HashMap<usize, MessageStream>>>;
+
+/// A gate usable from `Send` futures (interface handlers).
+#[derive(Default)]
+struct SGate {
+    credits: u64,
+    wakers: Vec<Waker>,
+}
+type SGateArc = std::sync::Arc<std::sync::Mutex<SGate>>;
+struct SWait(SGateArc);
+impl Future for SWait {
+    type Output = ();
+    fn poll(self: Pin<&mut Self>, cx: &mut Context<'_>) -> Poll<()> {
+        let mut g = self.0.lock().unwrap();
+        if g.credits > 0 {
+            g.credits -= 1;
+            Poll::Ready(())
+        } else {
+            g.wakers.push(cx.waker().clone());
+            Poll::Pending
+        }
+    }
+}
+
+/// An interface whose handler is suspended until the driver opens the gate (C39: in-flight handlers).
+struct Slow {
+    sh: Sh,
+    gate: SGateArc,
+}
+#[zbus::interface(name = "org.verif.Slow")]
+impl Slow {
+    async fn work(&self, id: u32) -> u32 {
+        emit(&self.sh, json!({"ev":"HandlerStart","k":id}));
+        SWait(self.gate.clone()).await;
+        emit(&self.sh, json!({"ev":"HandlerEnd","k":id}));
+        id
+    }
+}
 
 fn consumer(sh: Sh, conn: Connection, s: usize, rule: Option<String>, cap: Option<usize>, gate: GateRc, slots: Slots,
             from_slot: bool, parent: usize) -> Pin<Box<dyn Future<Output = J>>> {
@@ -215,11 +301,26 @@ struct Run {
     slots: Slots,
     wire_of_caller: HashMap<usize, usize>, // caller id -> index in peer.seen
     next_id: u32,
+    bus: bool,
+    bus_auto: bool,
+    bus_pending: std::collections::VecDeque<zbus::message::Message>, // replies of the fake bus not yet released
+    proxies: HashMap<usize, usize>, // proxy id -> task
+    exec: zbus::Executor<'static>,  // to keep ticking after the last Connection handle is gone
+    clones: HashMap<usize, Connection>,
+    sgate: SGateArc,
 }
 
 impl Run {
+    /// Has the creation of this stream / proxy completed?  (Dropping a handle is only meaningful once it
+    /// exists; cancelling a creation that is still in flight is a different operation.)
+    fn created(&self, ev: &str, key: &str, id: usize) -> bool {
+        self.sh.lock().unwrap().events.iter().any(|e| e["ev"] == ev && e[key].as_u64() == Some(id as u64) && e["result"] != "err")
+    }
     fn pump(&mut self) {
         for i in self.peer.pump() {
+            if self.bus {
+                self.bus_handle(i);
+            }
             let m = &self.peer.seen[i].msg;
             if m.message_type() == zbus::message::Type::MethodCall {
                 if let Ok(c) = m.body().deserialize::<u32>() {
@@ -228,22 +329,56 @@ impl Run {
             }
         }
     }
-    fn tick(&mut self) -> bool {
-        match &self.conn {
-            Some(c) => tick(c),
-            None => false,
+    /// The fake bus driver: records AddMatch / RemoveMatch and answers driver calls.
+    fn bus_handle(&mut self, i: usize) {
+        let m = self.peer.seen[i].msg.clone();
+        let h = m.header();
+        if m.message_type() != zbus::message::Type::MethodCall
+            || h.destination().map(|d| d.as_str() != "org.freedesktop.DBus").unwrap_or(true)
+        {
+            return;
         }
+        let member = h.member().map(|x| x.to_string()).unwrap_or_default();
+        let s = self.peer.serial();
+        let rb = zbus::message::Message::method_return(&h).unwrap().serial(s).sender("org.freedesktop.DBus").unwrap();
+        let reply = match member.as_str() {
+            "AddMatch" | "RemoveMatch" => {
+                let rule: String = m.body().deserialize().unwrap_or_default();
+                emit(&self.sh, json!({"ev": if member == "AddMatch" {"BusAddMatch"} else {"BusRemoveMatch"}, "rule": rule}));
+                rb.build(&()).unwrap()
+            }
+            "GetNameOwner" => rb.build(&":1.5").unwrap(),
+            "RequestName" => rb.build(&1u32).unwrap(),
+            "ReleaseName" => rb.build(&1u32).unwrap(),
+            _ => rb.build(&()).unwrap(),
+        };
+        if self.bus_auto {
+            release(&self.sh, msg_bytes(&reply), vec![]);
+        } else {
+            self.bus_pending.push_back(reply);
+        }
+    }
+    fn tick(&mut self) -> bool {
+        let t = self.exec.tick();
+        let mut t = std::pin::pin!(t);
+        poll_once(t.as_mut()).is_ready()
+    }
+    /// Number of things the driver still holds that keep the connection alive.
+    fn handles(&self) -> usize {
+        self.conn.iter().count() + self.clones.len() + self.sched.tasks.iter().filter(|t| t.fut.is_some() && !t.name.starts_with("shutdown")).count()
     }
     fn quiesce(&mut self) {
         for _ in 0..20000 {
             let mut progressed = false;
             while self.tick() {
                 progressed = true;
+                self.pump(); // frame what was written right away, so that Wire events keep their place in the order
             }
             for i in 0..self.sched.tasks.len() {
                 if self.sched.woken(i) {
                     self.sched.poll(i);
                     progressed = true;
+                    self.pump();
                 }
             }
             self.pump();
@@ -252,7 +387,12 @@ impl Run {
             }
         }
         let pending: Vec<String> = self.sched.tasks.iter().filter(|t| t.fut.is_some()).map(|t| t.name.clone()).collect();
-        emit(&self.sh, json!({"ev":"Quiescent","pending":pending}));
+        let (rd, wr) = {
+            let s = self.sh.lock().unwrap();
+            (s.read_half_dropped, s.write_half_dropped)
+        };
+        emit(&self.sh, json!({"ev":"Quiescent","pending":pending,"pending_bus":self.bus_pending.len(),"handles":self.handles(),
+                              "read_closed":rd,"write_closed":wr}));
     }
     fn send_in(&mut self, m: zbus::message::Message, kind: &str, cut: Option<usize>) {
         let d = describe(&m);
@@ -313,7 +453,8 @@ impl Run {
                 let member = st[2].as_str().map(|x| x.to_string());
                 let rule = member.as_ref().map(|m| format!("type='signal',member='{m}'"));
                 let cap = st[3].as_u64().map(|x| x as usize);
-                emit(&self.sh, json!({"ev":"SubStart","stream":s,"member":member.clone().unwrap_or_default(),"cap":cap.unwrap_or(0)}));
+                let canon = rule.as_ref().and_then(|r| zbus::MatchRule::try_from(r.as_str()).ok()).map(|r| r.to_string()).unwrap_or_default();
+                emit(&self.sh, json!({"ev":"SubStart","stream":s,"member":member.clone().unwrap_or_default(),"cap":cap.unwrap_or(0),"rule":canon}));
                 let g: GateRc = Rc::new(RefCell::new(Gate::default()));
                 self.gates.insert(s, g.clone());
                 let conn = self.conn.as_ref().unwrap().clone();
@@ -353,9 +494,11 @@ impl Run {
             "dropstream" => {
                 let s = a(1);
                 if let Some(&t) = self.stream_task.get(&s) {
-                    if !self.sched.done(t) {
+                    if !self.sched.done(t) && self.created("Subscribed", "stream", s) {
                         self.sched.cancel(t);
                         emit(&self.sh, json!({"ev":"StreamDrop","stream":s}));
+                    } else {
+                        emit(&self.sh, json!({"ev":"StepSkipped","step":st}));
                     }
                 }
             }
@@ -391,6 +534,128 @@ impl Run {
                 let id = a(2) as u32;
                 let m = self.peer.signal("/org/verif/Obj", "org.verif.Iface", member, Some(":1.7"), id);
                 self.send_in(m, "signal", st[3].as_u64().map(|x| x as usize));
+            }
+            "busreply" => {
+                if let Some(r) = self.bus_pending.pop_front() {
+                    release(&self.sh, msg_bytes(&r), vec![]);
+                }
+            }
+            "busauto" => {
+                self.bus_auto = st[1].as_bool().unwrap_or(true);
+                if self.bus_auto {
+                    while let Some(r) = self.bus_pending.pop_front() {
+                        release(&self.sh, msg_bytes(&r), vec![]);
+                    }
+                }
+            }
+            "proxysig" => {
+                // ["proxysig", p, dest, member]: a Proxy plus one of its signal streams, as one droppable handle
+                let p = a(1);
+                let dest = st[2].as_str().unwrap_or(":1.5").to_string();
+                let member = st[3].as_str().unwrap_or("A").to_string();
+                emit(&self.sh, json!({"ev":"ProxyStart","proxy":p,"dest":dest.clone(),"member":member.clone()}));
+                let conn = self.conn.as_ref().unwrap().clone();
+                let sh = self.sh.clone();
+                let fut: Pin<Box<dyn Future<Output = J>>> = Box::pin(async move {
+                    let r = async {
+                        let px: zbus::Proxy<'static> = zbus::proxy::Builder::new(&conn)
+                            .destination(dest)?.path("/org/verif/Obj")?.interface("org.verif.Iface")?
+                            .cache_properties(zbus::proxy::CacheProperties::No).build().await?;
+                        drop(conn);
+                        let st = px.receive_signal(member).await?;
+                        Ok::<_, zbus::Error>((px, st))
+                    }.await;
+                    match r {
+                        Ok((_px, mut st)) => {
+                            emit(&sh, json!({"ev":"ProxySubscribed","proxy":p,"result":"ok"}));
+                            while let Some(m) = st.next().await {
+                                emit(&sh, json!({"ev":"ProxyDelivered","proxy":p,"id":first_u32(&m)}));
+                            }
+                            emit(&sh, json!({"ev":"ProxyStreamEnd","proxy":p}));
+                        }
+                        Err(e) => emit(&sh, json!({"ev":"ProxySubscribed","proxy":p,"result":"err","err":err_kind(&e).0})),
+                    }
+                    json!("done")
+                });
+                let t = self.sched.add(&format!("proxy{p}"), fut);
+                self.proxies.insert(p, t);
+            }
+            "pollp" => {
+                if let Some(&t) = self.proxies.get(&a(1)) {
+                    self.sched.poll(t);
+                }
+            }
+            "dropproxy" => {
+                if let Some(&t) = self.proxies.get(&a(1)) {
+                    if !self.sched.done(t) && self.created("ProxySubscribed", "proxy", a(1)) {
+                        self.sched.cancel(t);
+                        emit(&self.sh, json!({"ev":"ProxyDrop","proxy":a(1)}));
+                    } else {
+                        emit(&self.sh, json!({"ev":"StepSkipped","step":st}));
+                    }
+                }
+            }
+            "cloneconn" => {
+                if let Some(c) = &self.conn {
+                    self.clones.insert(a(1), c.clone());
+                    emit(&self.sh, json!({"ev":"HandleCreate","which":"clone","h":a(1)}));
+                } else if let Some(c) = self.clones.values().next().cloned() {
+                    self.clones.insert(a(1), c);
+                    emit(&self.sh, json!({"ev":"HandleCreate","which":"clone","h":a(1)}));
+                }
+            }
+            "dropclone" => {
+                if self.clones.remove(&a(1)).is_some() {
+                    emit(&self.sh, json!({"ev":"HandleDrop","which":"clone","h":a(1)}));
+                }
+            }
+            "serve" => {
+                if let Some(c) = self.conn.clone() {
+                    let iface = Slow { sh: self.sh.clone(), gate: self.sgate.clone() };
+                    let fut = c.object_server().at("/org/verif/Obj", iface);
+                    let mut fut = Box::pin(fut);
+                    let mut ok = false;
+                    for _ in 0..1000 {
+                        if let Poll::Ready(r) = poll_once(fut.as_mut()) {
+                            ok = r.unwrap_or(false);
+                            break;
+                        }
+                        self.tick();
+                    }
+                    emit(&self.sh, json!({"ev":"Served","ok":ok}));
+                }
+            }
+            "incall" => {
+                // the peer calls org.verif.Slow.Work(id)
+                let id = a(1) as u32;
+                let s = self.peer.serial();
+                let m = zbus::message::Message::method_call("/org/verif/Obj", "Work").unwrap()
+                    .interface("org.verif.Slow").unwrap().serial(s).build(&id).unwrap();
+                emit(&self.sh, json!({"ev":"PeerCall","k":id,"serial":s.get()}));
+                release(&self.sh, msg_bytes(&m), vec![]);
+            }
+            "open" => {
+                let ws = {
+                    let mut g = self.sgate.lock().unwrap();
+                    g.credits += st[1].as_u64().unwrap_or(1);
+                    std::mem::take(&mut g.wakers)
+                };
+                for w in ws {
+                    w.wake();
+                }
+            }
+            "shutdown" => {
+                if let Some(c) = self.conn.take() {
+                    emit(&self.sh, json!({"ev":"ShutdownStart"}));
+                    let sh = self.sh.clone();
+                    let fut: Pin<Box<dyn Future<Output = J>>> = Box::pin(async move {
+                        c.graceful_shutdown().await;
+                        emit(&sh, json!({"ev":"ShutdownDone"}));
+                        json!("done")
+                    });
+                    let t = self.sched.add("shutdown", fut);
+                    self.sched.poll(t);
+                }
             }
             "permit" => allow_write(&self.sh, a(1).max(1)),
             "gate" => {
@@ -456,18 +721,32 @@ fn run_scenario(sc: &J) -> Vec<J> {
     sh.lock().unwrap().write_gated = sc["write_gated"].as_bool().unwrap_or(false);
     sh.lock().unwrap().yield_after_write = sc["yield_after_write"].as_bool().unwrap_or(false);
     emit(&sh, json!({"ev":"Reset","kind":sc["kind"],"timeout_ms":sc["timeout_ms"].as_u64().unwrap_or(0)}));
-    let conn = connect(&sh, sc["timeout_ms"].as_u64().unwrap_or(0), sc["max_queued"].as_u64().map(|x| x as usize));
+    let bus = sc["bus"].as_bool().unwrap_or(false);
+    let mut peer = Peer::new(&sh);
+    let conn = if bus {
+        connect_bus(&sh, &mut peer)
+    } else {
+        connect(&sh, sc["timeout_ms"].as_u64().unwrap_or(0), sc["max_queued"].as_u64().map(|x| x as usize))
+    };
+    let exec = conn.executor().clone();
     let mut run = Run {
         sh: sh.clone(),
+        exec,
+        clones: HashMap::new(),
+        sgate: Default::default(),
         conn: Some(conn),
         sched: Sched::new(),
-        peer: Peer::new(&sh),
+        peer,
         caller_task: HashMap::new(),
         stream_task: HashMap::new(),
         gates: HashMap::new(),
         slots: Rc::new(RefCell::new(HashMap::new())),
         wire_of_caller: HashMap::new(),
         next_id: 0,
+        bus,
+        bus_auto: sc["bus_auto"].as_bool().unwrap_or(true),
+        bus_pending: Default::default(),
+        proxies: HashMap::new(),
     };
     let res = std::panic::catch_unwind(std::panic::AssertUnwindSafe(|| {
         for st in sc["steps"].as_array().unwrap() {
